@@ -70,7 +70,7 @@ class Ctx:
         payload['repro'] = './check replay %s' % path
         with open(path, 'w') as f:
             json.dump(payload, f, indent=1)
-        if len(self.violations) < 20:
+        if len(self.violations) < 60:
             print('VIOLATION property=%s replay=%s' % (self.prop, path), flush=True)
         self.violations.append((path, key))
 
